@@ -522,6 +522,9 @@ func bufferClass(fn *ssa.Function, v ssa.Value) string {
 	if phi, ok := root.(*ssa.Phi); ok {
 		cls := map[string]bool{}
 		for _, e := range phi.Edges {
+			if isNilConst(e) || e == ssa.Value(phi) {
+				continue // the zero value of a result variable on the way to an error return
+			}
 			cls[bufferClass(fn, e)] = true
 		}
 		if len(cls) == 1 {
